@@ -47,7 +47,9 @@
     E1  all rules      no site inside the operand text of a string-taking directive (.ascii .asciz .rad50
                        .include .title .sbttl .ident .error insert_file make_* and unknown directives),
                        nor inside a statement the tokenizer does not understand.        W: str-case, str-trivia
-    E2  CaseFlip       not on character / RADIX-50 literals ('c "cc ^Rccc: content, kept as is). W: char-case
+    E2  CaseFlip       not on character / RADIX-50 literals ('c "cc ^Rccc: content, kept as is), W: char-case
+                       EXCEPT a character literal that consists of escapes only ('\n "\x1b\x0a: "str" with
+                       s = 1): the escape letter and the hex digits are spelling, not content.
     E3  Trivia         blanks only BETWEEN tokens (tokens are atomic: 10. :: == << ^X1F ^/ %3 'c);
                        a '; comment' only directly before a new line (it swallows the rest of the line);
                        a blank line only next to an existing new line (a new line inside a statement is
@@ -182,7 +184,8 @@ EnCaseFlip(t, c, q) ==
     /\ \/ x.k \in {"mn", "dir", "sym"}
        \/ (x.k = "reg" /\ x.s # 1)
        \/ (x.k = "num" /\ x.s >= 2)
-       \/ (x.k = "loc" /\ x.a = 1)                                                   \* E2: never "str"
+       \/ (x.k = "loc" /\ x.a = 1)
+       \/ (x.k = "str" /\ x.s = 1)                                                   \* E2: "str" only if it consists of escapes
        \/ (x.k = "op" /\ x.v = 19)                                                   \* the one operator spelled with a letter: ^c / ^C
 
 EnRegAlias(t, c, q) ==
@@ -341,7 +344,8 @@ Piece(t, c, q) ==
                 [] x.k = "at" -> IF WholeAtReg(c, q) THEN <<C("can", "rdef", c.w[q + 1].v, 0, 0)>> ELSE <<C("can", "at", 0, 0, 0)>>
                 [] x.k \in {"colon", "eq"} -> <<C("can", x.k, 0, x.s, 0)>>
                 [] x.k = "op" -> <<C("can", "op", x.v, 0, 0)>>
-                [] x.k \in {"str", "junk", "blob", "triv"} -> <<Raw(x)>>
+                [] x.k = "str" -> IF x.s = 1 THEN <<C("can", "stresc", x.v, 0, 0)>> ELSE <<Raw(x)>>
+                [] x.k \in {"junk", "blob", "triv"} -> <<Raw(x)>>
                 [] OTHER -> <<C("can", x.k, 0, 0, 0)>>
          IN IF ImplicitWL(c, q) THEN <<C("can", "dir", 0, 0, 0)>> \o body ELSE body
 CanonC(t, c) == Flatten([q \in 1..c.m |-> Piece(t, c, q)])
@@ -372,6 +376,7 @@ R1 == T("reg", 1, 0, 0, 0, 0, 0)         R6 == T("reg", 6, 2, 1, 0, 0, 0)
 N1 == T("num", 1, 0, 0, 0, 0, 0)         NX == T("num", 1, 5, 0, 1, 0, 0)       \* 1   ^X1
 SA == T("sym", 1, 0, 0, 0, 0, 0)         SM == T("sym", 2, 0, 0, 1, 0, 0)       \* a   a symbol called like a mnemonic
 STR == T("str", 1, 0, 0, 0, 0, 1)        LOC == T("loc", 1, 0, 0, 0, 0, 0)      \* '/   1$
+STRE == T("str", 2, 1, 0, 0, 0, 1)                                              \* '\x1b  (escapes only)
 DIV == T("op", 1, 0, 0, 0, 1, 1)         MUL == T("op", 10, 0, 0, 0, 1, 0)      \* /   *
 OP(s, d) == T("open", d, s, 0, 0, 0, DelimBit(d))
 CL(s, d) == T("close", d, s, 0, 0, 0, DelimBit(d))
@@ -473,6 +478,8 @@ Stmts == <<
   <<DW, STR, COMMA, PCT, N1>>,                                            \* .word 'a, % 1
   <<T("dir", 8, 0, 0, 1, 0, 0), N1, LB, MNP, RB>>,                        \* .repeat 1 { ret }
   <<MNP>>,                                                                \* ret
+  <<DW, STRE, COMMA, STR>>,                                               \* .word '\x1b, '/
+  <<MNP, HASH, STRE, PLUS, N1, COMMA, R1>>,                               \* mov #'\x1b+1, r1
   <<MNP, HASH, MINUS, NX, COMMA, AT, HASH, SA>>                           \* mov #-^X1, @#a
 >>
 
